@@ -34,6 +34,7 @@ type outcome struct {
 	err     string   // text of the error / panic
 	results [][]byte // every []byte the call returned
 	names   []string // what each result is
+	pval    any      // the recovered panic value (a fault on read-only argument memory carries its address)
 }
 
 type scenario struct {
